@@ -844,6 +844,12 @@ func (fr *Frame) copyOp(st *State, d, s *Val, sT types.Type) *Val {
 		c.addFact(ForallPat([]*Term{q}, Implies(Or(Lt(q, d.Off), Le(Add(d.Off, n), q)), Eq(Select(nc, q), Select(oldC, q))), Select(nc, q)))
 		st.heapSet(key, Store(arr, d.X, nc))
 	}
+	if b, ok := under(et).(*types.Basic); ok && b.Kind() == types.Uint8 && s.K != KStr {
+		// as abstract byte strings: a copy that fills the whole destination from a source of the same length makes the two equal
+		preH := pre.heapGet("S:byte", SArr(SInt, SArr(SInt, SInt)))
+		postH := st.heapGet("S:byte", SArr(SInt, SArr(SInt, SInt)))
+		c.addFact(Implies(Eq(d.Len, s.Len), Eq(c.bytesVal(Select(postH, d.X), d.Off, d.Len), c.bytesVal(Select(preH, s.X), s.Off, s.Len))))
+	}
 	return &Val{K: KInt, T: types.Typ[types.Int], X: n}
 }
 
@@ -971,6 +977,16 @@ func (c *Ctx) scanWrites(blocks []*ssa.BasicBlock, w *writeSet, depth int, seen 
 				w.add("M:"+tstr(x.Type()), true)
 			case *ssa.MapUpdate:
 				w.add("M:"+tstr(x.Map.Type()), false)
+			case *ssa.Range:
+				if _, isMap := under(x.X.Type()).(*types.Map); isMap {
+					w.add("M:"+tstr(x.X.Type())+"#visited", false)
+				}
+			case *ssa.Next:
+				if r, ok := x.Iter.(*ssa.Range); ok {
+					if _, isMap := under(r.X.Type()).(*types.Map); isMap {
+						w.add("M:"+tstr(r.X.Type())+"#visited", false)
+					}
+				}
 			case *ssa.Slice:
 				if pt, ok := under(x.X.Type()).(*types.Pointer); ok {
 					if arr, ok := under(pt.Elem()).(*types.Array); ok {
